@@ -6,7 +6,8 @@ import tree_common as T
 from wire import enc_str
 
 # which ops the Lean model implements (extended as the model grows)
-MODEL_OPS = {'xml': True, 'jigg': True, 'read_xml': True, 'read_jigg': True, 'normalize': True}
+MODEL_OPS = {'xml': True, 'jigg': True, 'read_xml': True, 'read_jigg': True, 'normalize': True, 'xml_text': True, 'jigg_text': True,
+             'read_xml_text': True, 'read_jigg_text': True}
 
 
 def canon(el):
